@@ -331,7 +331,7 @@ func r132(c *an.Ctx) {
 		}
 		c.Check(miss, rule, name+"|unknown method is Unimplemented", fn.Pos(), "", "NewStream does not answer a method missing from both maps with ErrMethodNotFound")
 		// shape: the goroutine is only reachable when BOTH flags match: path search avoiding the equal edges
-		okShape := shape
+		shapeViaHelper, unguarded := false, false
 		for _, g := range an.GoStmts(fn) {
 			flagsCompared := map[string]bool{}
 			for _, e := range an.GuardingEdges(g) {
@@ -347,10 +347,62 @@ func r132(c *an.Ctx) {
 					}
 				}
 			}
+			// the comparison as a helper of the package: the goroutine lies behind the helper's nil verdict, and every
+			// nil return of the helper lies behind both flags being equal (its other verdict is ErrMethodShape)
+			for _, e := range an.GuardingEdges(g) {
+				x, trueMeansNil, isNil := an.NilTest(e.If.Cond)
+				if !isNil || e.Branch != trueMeansNil {
+					continue
+				}
+				for _, s0 := range an.Sources(x) {
+					hc, isCall := s0.(*ssa.Call)
+					if !isCall {
+						continue
+					}
+					h := hc.Call.StaticCallee()
+					if h == nil || h.Pkg != fn.Pkg || len(h.Blocks) == 0 {
+						continue
+					}
+					anyNil, both, saysShape := false, true, false
+					for _, hr := range an.Returns(h) {
+						if len(hr.Results) == 0 {
+							continue
+						}
+						if retGlobal(hr) == "ErrMethodShape" {
+							saysShape = true
+						}
+						if !provablyNilAt(hr.Results[len(hr.Results)-1], hr) {
+							continue
+						}
+						anyNil = true
+						fc := map[string]bool{}
+						for _, e2 := range an.GuardingEdges(hr) {
+							bo, ok := e2.If.Cond.(*ssa.BinOp)
+							if !ok {
+								continue
+							}
+							_, _, fx, okx := an.FieldOf(bo.X)
+							_, _, fy, oky := an.FieldOf(bo.Y)
+							if okx && oky && fx == fy && ((bo.Op == token.NEQ && !e2.Branch) || (bo.Op == token.EQL && e2.Branch)) {
+								fc[fx] = true
+							}
+						}
+						if !fc["ServerStreams"] || !fc["ClientStreams"] {
+							both = false
+						}
+					}
+					if anyNil && both && saysShape {
+						flagsCompared["ServerStreams"], flagsCompared["ClientStreams"] = true, true
+						shapeViaHelper = true
+					}
+				}
+			}
 			if !flagsCompared["ServerStreams"] || !flagsCompared["ClientStreams"] {
-				okShape = false
+				unguarded = true
 			}
 		}
+		// (NewStream answers ErrMethodShape itself, or hands back the verdict of the helper that does)
+		okShape := (shape || shapeViaHelper) && !unguarded
 		c.Check(okShape, rule, name+"|shape mismatch is Internal before the handler starts", fn.Pos(), "handler guarded by equal ServerStreams and ClientStreams flags",
 			"the handler goroutine can start although the requested streaming shape (ServerStreams/ClientStreams) differs from the method's: the call is not answered with ErrMethodShape")
 	}
